@@ -6,12 +6,18 @@ from oracle_util import *  # noqa
 from protocol import from_real
 
 ID = "C04"
-LEAN_MODULE = None
+LEAN_MODULE = "SCoda.Props.C04"
 CLAUSES = [
-    ("after any history both views describe the same timed events and the same duration", None),
-    ("the effect of every operation is visible through both views", None),
-    ("no legal history leaves the sequence unreadable", None),
-    ("converting between the representations in either direction loses no event and no duration", None),
+    ("after any history both views describe the same timed events and the same duration (generic two-view machine, instantiated with the modelled conversions)",
+     ["SCoda.C04.run_inv", "SCoda.C04.views_agree", "SCoda.C04.inv_new", "SCoda.C04.inv_ofAbs", "SCoda.C04.inv_ofRel",
+      "SCoda.C04.readAbs_refines", "SCoda.C04.readRel_refines"]),
+    ("the effect of every operation is visible through both views", ["SCoda.C04.absOp_visible", "SCoda.C04.relOp_visible", "SCoda.C04.read_content"]),
+    ("no legal history leaves the sequence unreadable", ["SCoda.C04.step_inv", "SCoda.C04.run_inv"]),
+    ("converting between the representations in either direction loses no event and no duration",
+     ["SCoda.C04.toRel_events", "SCoda.C04.toRel_duration", "SCoda.C04.toAbs_events", "SCoda.C04.toAbs_duration",
+      "SCoda.C04.toRel_ok", "SCoda.C04.toAbs_ok"]),
+    ("every public mutator is a view-local function that keeps its view legal (OkAbs / OkRel), so it is an Op of the machine", None),
+    ("the public operations found by introspection are all covered by the model's alphabet", None),
 ]
 RULE = ("random histories (<=12 ops quick, <=40 thorough) over the full public alphabet (mutators, both overwrites, edits while "
         "iterating either view, copy, refresh, reads in any order) from each of the three freshness states, driven through real "
